@@ -11,7 +11,7 @@ for pid in ids:
         if not (os.path.exists(patch) and os.path.exists(demo) and os.path.exists(meta)) or os.path.exists(dest + '/meta.json'):
             continue
         extra = [a for a in os.environ.get('ALSO', '').split() if a != pid]
-        res = subprocess.run(['/verif/tools/try_seeded.sh', patch, demo, pid] + extra, capture_output=True, text=True)
+        res = subprocess.run(['/verif/tools/try_seeded.sh', patch, demo, pid] + extra, capture_output=True, text=True, errors='replace')
         lines = [l for l in res.stdout.splitlines() if l.startswith('RESULT')]
         txt = '\n'.join(lines)
         suite = 'suite=PASS' in txt
